@@ -685,30 +685,25 @@ pub fn check(e: &'static dyn Engine, ctx: &Ctx) -> Outcome {
     let mut vs = agg.violations.clone();
     vs.sort_by(|a, b| (a.profile.clone(), a.index).cmp(&(b.profile.clone(), b.index)));
     let mut seen: HashSet<(String, String)> = HashSet::new();
+    let mut unconfirmed: Vec<String> = vec![];
     let max_reports: usize =
         std::env::var("VERIF_MAX_REPORTS").ok().and_then(|s| s.parse().ok()).unwrap_or(3);
     for v in &vs {
-        if !seen.insert((v.profile.clone(), v.class.clone())) {
+        if seen.contains(&(v.profile.clone(), v.class.clone())) {
             continue;
         }
         if reported >= max_reports {
             break;
         }
         let case = e.generate(ctx.seed, v.index, ctx.tier);
-        // (a) confirm alone in a fresh process
+        // (a) confirm alone in a fresh process. Cases that involve the real OS can depend on
+        // timing; such a run is skipped (and said so) and the next violating run of the class is tried.
         let confirm = run_isolated(e, ctx, &v.profile, &case, "confirm");
         let Some(cclass) = class_of(&confirm).map(str::to_string) else {
-            eprintln!(
-                "harness error: run {} ({}) of {} reported `{}: {}` in the batch but passes alone; \
-                 the engine is not deterministic",
-                v.index,
-                v.profile,
-                e.id(),
-                v.class,
-                v.msg
-            );
-            return Outcome { exit: 2 };
+            unconfirmed.push(format!("run {} ({}) reported `{}: {}` in the batch but passes alone", v.index, v.profile, v.class, v.msg));
+            continue;
         };
+        seen.insert((v.profile.clone(), v.class.clone()));
         // (b) minimise
         let start = e.concretise(&case, &confirm, false);
         let (small, calls) = if std::env::var("VERIF_NO_MINIMISE").is_ok() {
@@ -763,6 +758,24 @@ pub fn check(e: &'static dyn Engine, ctx: &Ctx) -> Outcome {
     }
     for l in &known_lines {
         println!("{l}");
+    }
+    // violations seen in the batch of which not a single run reproduces alone: the engine (or the
+    // real OS underneath a cross-check) is not deterministic there; never silently dropped
+    let unreproduced: Vec<&Found> = vs.iter().filter(|v| !seen.contains(&(v.profile.clone(), v.class.clone()))).collect();
+    if !unconfirmed.is_empty() {
+        for u in unconfirmed.iter().take(5) {
+            println!("NOTE: {u}");
+        }
+        agg.notes.extend(unconfirmed.iter().take(20).cloned());
+    }
+    if reported == 0 && reported < max_reports && !unreproduced.is_empty() {
+        eprintln!(
+            "harness error: {} violating run(s) of {} seen in the batch, none reproduces alone (first: run {} `{}: {}`)",
+            unreproduced.len(), e.id(), unreproduced[0].index, unreproduced[0].class, unreproduced[0].msg
+        );
+        let wall = t0.elapsed().as_secs_f64();
+        write_evidence(e, ctx, &agg, wall, 0, &replays, &known_lines);
+        return Outcome { exit: 2 };
     }
 
     let wall = t0.elapsed().as_secs_f64();
